@@ -285,6 +285,11 @@ def eq_term(ctx, a, b):
         if a.nbits != b.nbits:
             return False
         return a.term == b.term
+    if isinstance(a, SHex) and isinstance(b, str) or isinstance(b, SHex) and isinstance(a, str):
+        h, c = (a, b) if isinstance(a, SHex) else (b, a)
+        if len(c) != h.nbits // 4 or any(ch not in "0123456789abcdef" for ch in c):
+            return False
+        return h.term == z3.BitVecVal(int(c, 16), h.nbits)
     if isinstance(a, (list, tuple)) and isinstance(b, (list, tuple)):
         if isinstance(a, list) != isinstance(b, list):
             return False
